@@ -446,6 +446,9 @@ theorem evalKey_lastSet (k : Key) : ∀ (as : List Assign) (x : Option V), (∀ 
     | item k' i v =>
       have : k' ≠ k := fun e => by have := h _ List.mem_cons_self e; simp [Assign.isSet] at this
       simp only [stepKey, setsOf, this, if_false]
+    | note k' =>
+      have : k' ≠ k := fun e => by have := h _ List.mem_cons_self e; simp [Assign.isSet] at this
+      simp only [stepKey, setsOf, this, if_false]
 
 /-- the reference fold over assignments to destinations, read at a destination -/
 theorem ref_eval {a : Arg} (ha : a ∈ p.args) (as : List Assign) (h : ∀ s ∈ as, ∃ b ∈ p.args, s.key = b.dest) (c : KV) :
